@@ -772,5 +772,11 @@ def run(chk):
     chk.rule('C13.D', 'shared with C13: value_string on sample numbers never raises and prints a text denoting the number')
     chk.rule('C13.C', 'shared with C13: number clean-up')
     c13.report_value_string_sim(chk)
+    # "+ ... offsets datetimes by milliseconds; - on two datetimes" and the stringified datetime operand: evaluation on concrete datetimes (shared with C16)
+    from . import c16
+    chk.rule('C16.E', 'shared with C16: datetime + number / datetime - datetime evaluated on concrete datetimes in several local zones')
+    chk.rule('C16.I', 'shared with C16: value_string of a datetime is the ISO text of the instant, truncated to milliseconds')
+    chk.rule('C16.N', 'shared with C16: datetime operands are normalised (aware -> local naive, date -> midnight)')
+    chk.guard('C16.E', c16.check_datetime_sim, chk, None, ('normalise', 'format', 'arith'))
     chk.guard('C03.B', check_aliases, chk)
     chk.guard('C03.B', evalsim.report, chk, {'lookup': 'C03.B'}, what)
